@@ -55,13 +55,15 @@ PROPS["C01"] = dict(
           "same/other/short/absent; accuser peer/subject/local/unknown; carrier single/compound/compressed/nested/CRC/push-pull join or not). "
           "Oracle per claim from dumps before/after: a stale or equal-rank claim leaves record, Members() entry and event log untouched "
           "(only the node's own timer transitions are allowed) and, on a drained queue, is not re-gossiped; across all consecutive dumps rank never "
-          "decreases and fields change only with a strict rank increase, except the permitted reclaim. "
+          "decreases and fields change only with a strict rank increase, except the permitted reclaim. Wall-clock schedule (C06 package): a refutation accepted while the node is carrying out the expiry of its own suspicion keeps the member (the pending death notice has become stale). "
           "non-trivial = claim against a present record that is stale or equal-rank and not a permitted reclaim; distinct = distinct tuples "
           "(prior state, claim kind, relation, carrier, incarnation mode, address/port/meta/vsn variation, accuser, age class, prior address, mode)"),
     tests=[
         dict(name="stale", run="^TestStaleClaims$",
-             quick=dict(shards=16, checks=250, timeout=600),
-             thorough=dict(shards=16, checks=6000, timeout=3000)),
+             quick=dict(shards=15, checks=270, timeout=600),
+             thorough=dict(shards=15, checks=6400, timeout=3000)),
+        # the node's own timer against a refutation that is accepted while the expiry is being carried out: the death notice it was about to issue is stale by then
+        dict(name="window", pkg="./props/c06", run="^TestRefutationInsideExpiry$", quick=dict(shards=1, checks=14, timeout=600), thorough=dict(shards=2, checks=400, timeout=3000)),
     ],
     assumptions=PUPPET_ASSUMPTIONS + [
         "a record first seen already dead (created by an alive at incarnation 0) has unknown age and may be reclaimed at once when a reclaim time is set",
